@@ -470,18 +470,158 @@ Section C07Calc.
     split; [exact G|].
     destruct wt.
     - inv_bind H. injection H as <- <- <-.
-      split; [reflexivity|]. split; [now rewrite (us_factors _ _ _ _ _ _ _ _ _ _ U1)|].
+      split; [reflexivity|]. split; [reflexivity|].
       split; [discriminate|]. intros _.
+      assert (Aq : opt_agrees (nr d1 - sr_rank o s1) (sr_q s2) Q2).
+      { rewrite <- Hr2. apply (us_aq _ _ _ _ _ _ _ _ _ _ U2). }
+      assert (Aqi : opt_agrees (nr d1 - sr_rank o s1) (sr_qinv s2) Q2i).
+      { rewrite <- Hr2. apply (us_aqi _ _ _ _ _ _ _ _ _ _ U2). }
       pose proof (calc_trans_spec s1 s2 t (nr d1) P1 B Q2 Q2i (us_nr _ _ _ _ _ _ _ _ _ _ U1)
-                    (us_ap _ _ _ _ _ _ _ _ _ _ U1) (us_api _ _ _ _ _ _ _ _ _ _ U1)) as HT.
-      rewrite <- Hr2 in HT.
-      specialize (HT (us_aq _ _ _ _ _ _ _ _ _ _ U2) (us_aqi _ _ _ _ _ _ _ _ _ _ U2) E0).
-      cbn zeta in HT. rewrite Hr2 in HT. rewrite (us_factors _ _ _ _ _ _ _ _ _ _ U1) in HT.
+                    (us_ap _ _ _ _ _ _ _ _ _ _ U1) (us_api _ _ _ _ _ _ _ _ _ _ U1) Aq Aqi E0) as HT.
+      cbn zeta in HT. rewrite (us_factors _ _ _ _ _ _ _ _ _ _ U1) in HT.
       destruct HT as [p [q [T1 [T2 [T3 [T4 [T5 [T6 [T7 [T8 T9]]]]]]]]]].
       exists p, q. rewrite T1.
       repeat (split; [first [reflexivity|assumption]|]). assumption.
     - injection H as <- <- <-.
-      split; [reflexivity|]. split; [now rewrite (us_factors _ _ _ _ _ _ _ _ _ _ U1)|].
+      split; [reflexivity|]. split; [reflexivity|].
       split; [reflexivity|discriminate].
+  Qed.
+  (* ---------- the trivial path ---------- *)
+  Lemma inv_pair_id k : inv_pair o k (mid o) (mid o).
+  Proof. split; intros i j Hi Hj; now apply (mmul_id_l o L). Qed.
+
+  Lemma zero_smith_form m n (A : mat R) :
+    (forall i j, (i < m)%nat -> (j < n)%nat -> A i j = 0) -> smith_form o m n A O (fun _ => 0).
+  Proof.
+    intros HA. exists (mid o), (mid o), (mid o), (mid o).
+    split; [apply inv_pair_id|]. split; [apply inv_pair_id|].
+    split; [|split; [intros; lia|lia]].
+    intros i j Hi Hj. rewrite (mmul_id_l o L) by assumption. rewrite (mmul_id_r o L) by assumption.
+    rewrite HA by assumption. destruct (i =? j); reflexivity.
+  Qed.
+
+  (* ======================================================================================== *)
+  (* rank and torsion *)
+  Theorem calculate_rank_tors d1 d2 wt rank tors tr :
+    snf_contract -> mwf d1 -> mwf d2 -> zero_prod d1 d2 ->
+    calculate o isu snf d1 d2 wt = Some (rank, tors, tr) ->
+    nr d1 = nc d2 /\
+    exists (r1 r2 : nat) (a b : nat -> R) (t : nat),
+      smith_form o (nr d1) (nc d1) (mg d1) r1 a /\
+      smith_form o (nr d2) (nc d2) (mg d2) r2 b /\
+      (rank + r1 + r2 = nr d1)%nat /\
+      (forall i, (S i < r1)%nat -> exists c, a (S i) = a i * c) /\
+      tors = non_units isu (map a (seq O r1)) /\
+      t = length tors /\ (t <= r1)%nat /\ tors = map a (seq (r1 - t) t) /\
+      (forall i, (i < r1 - t)%nat -> isu (a i) = true) /\
+      (forall i, (r1 - t <= i < r1)%nat -> isu (a i) = false).
+  Proof.
+    intros HC W1 W2 Hdd H.
+    destruct (d_is_zero o d1 && d_is_zero o d2) eqn:Hz.
+    - (* both maps are zero *)
+      unfold calculate in H.
+      destruct (nr d1 =? nc d2) eqn:En; cbn [negb] in H; [|discriminate].
+      apply Nat.eqb_eq in En. split; [exact En|].
+      rewrite Hz in H. injection H as <- <- _.
+      apply andb_true_iff in Hz. destruct Hz as [Z1 Z2].
+      rewrite d_is_zero_spec in Z1, Z2.
+      exists O, O, (fun _ => 0), (fun _ => 0), O.
+      split; [now apply zero_smith_form|]. split; [now apply zero_smith_form|].
+      split; [lia|]. split; [intros; lia|].
+      split; [reflexivity|]. split; [reflexivity|]. split; [lia|]. split; [reflexivity|].
+      split; intros; lia.
+    - destruct (calculate_core d1 d2 wt rank tors tr HC W1 W2 Hdd H Hz)
+        as [En [s1 [s2 [P1 [B [Q1 [Q1i [P2 [P2i [Q2 [Q2i HH]]]]]]]]]]].
+      cbn zeta in HH. destruct HH as [S1 [S2 [Hch [Hle [Hrk [Htors _]]]]]].
+      split; [exact En|].
+      exists (sr_rank o s1), (sr_rank o s2), (fun i => mg (sr_d s1) i i), (fun i => mg (sr_d s2) i i), (length tors).
+      split; [exact (smith_to_form o _ _ _ _ _ _ _ _ _ S1)|].
+      split.
+      { rewrite <- En. exact (smith_form_d2 o L Hint _ _ _ _ _ Hdd _ _ _ _ _ _ S1 _ _ _ _ _ _ S2). }
+      split; [lia|]. split; [exact Hch|]. split; [exact Htors|]. split; [reflexivity|].
+      pose proof (units_first (fun i => mg (sr_d s1) i i) (sr_rank o s1) Hch) as HU.
+      cbn zeta in HU. rewrite <- Htors in HU. exact HU.
+  Qed.
+  (* ======================================================================================== *)
+  (* generators and coordinates *)
+  Lemma mget_d_id n i j : (i < n)%nat -> (j < n)%nat -> mg (d_id o n) i j = mid o i j.
+  Proof. intros Hi Hj. unfold d_id. now rewrite mget_dmk. Qed.
+
+  Lemma mvec_ext_l n (A A' : mat R) v i :
+    (forall l, (l < n)%nat -> A i l = A' i l) -> mvec o n A v i = mvec o n A' v i.
+  Proof. intros H. unfold mvec. apply (sum_ext o). intros l Hl. now rewrite H. Qed.
+
+  Definition gens_ok (d1 d2 : dmat R) (rank : nat) (tors : list R) (p q : dmat R) : Prop :=
+    let h := (rank + length tors)%nat in
+    let n := nr d1 in
+    nr p = h /\ nc p = n /\ nr q = n /\ nc q = h /\
+    (* the generators are cycles *)
+    meq (nr d2) h (mmul o n (mg d2) (mg q)) (mzero o) /\
+    (* their coordinates are the standard basis *)
+    meq h h (mmul o n (mg p) (mg q)) (mid o) /\
+    (* every boundary has coordinates 0 (free part) / multiples of the torsion orders (torsion part) *)
+    (forall (x : nat -> R) i, (i < h)%nat ->
+       let y := mvec o n (mg p) (mvec o (nc d1) (mg d1) x) in
+       ((i < rank)%nat -> y i = 0) /\
+       ((rank <= i)%nat -> exists c, y i = nth (i - rank) tors 0 * c)).
+
+  Theorem calculate_generators d1 d2 rank tors tr :
+    snf_contract -> mwf d1 -> mwf d2 -> zero_prod d1 d2 ->
+    calculate o isu snf d1 d2 true = Some (rank, tors, tr) ->
+    exists t p q,
+      tr = Some t /\ forward_mat o t = Some p /\ backward_mat o t = Some q /\
+      src_dim t = nr d1 /\ tgt_dim t = (rank + length tors)%nat /\
+      gens_ok d1 d2 rank tors p q.
+  Proof.
+    intros HC W1 W2 Hdd H.
+    destruct (d_is_zero o d1 && d_is_zero o d2) eqn:Hz.
+    - unfold calculate in H.
+      destruct (nr d1 =? nc d2) eqn:En; cbn [negb] in H; [|discriminate].
+      apply Nat.eqb_eq in En. rewrite Hz in H. injection H as <- <- <-.
+      apply andb_true_iff in Hz. destruct Hz as [Z1 Z2]. rewrite d_is_zero_spec in Z1, Z2.
+      exists (trans_id (nr d1)), (d_id o (nr d1)), (d_id o (nr d1)).
+      cbn [length]. rewrite Nat.add_0_r.
+      split; [reflexivity|]. split; [reflexivity|]. split; [reflexivity|]. split; [reflexivity|]. split; [reflexivity|].
+      unfold gens_ok. cbn zeta. cbn [length]. rewrite Nat.add_0_r.
+      split; [reflexivity|]. split; [reflexivity|]. split; [reflexivity|]. split; [reflexivity|].
+      split; [|split].
+      + intros i j Hi Hj. unfold mzero. apply (mmul_zero_row o L). intros l Hl. apply Z2; [assumption|lia].
+      + intros i j Hi Hj. rewrite (mmul_ext_l o _ _ (mid o)) by (intros; now apply mget_d_id).
+        rewrite (mmul_id_l o L) by assumption. now apply mget_d_id.
+      + intros x i Hi. split; [|intros; lia]. intros _.
+        unfold mvec at 1. apply (sum_zero_ext o L). intros l Hl.
+        unfold mvec. rewrite (sum_zero_ext o L); [ring|]. intros l' Hl'. rewrite Z1 by assumption. ring.
+    - destruct (calculate_core d1 d2 true rank tors tr HC W1 W2 Hdd H Hz)
+        as [En [s1 [s2 [P1 [B [Q1 [Q1i [P2 [P2i [Q2 [Q2i HH]]]]]]]]]]].
+      cbn zeta in HH. destruct HH as [S1 [S2 [Hch [Hle [Hrk [Htors [_ HT]]]]]]].
+      destruct (HT eq_refl) as [p [q [T1 [T2 [T3 [T4 [T5 [T6 [T7 T8]]]]]]]]].
+      exists (mk_trans (nr d1) (rank + length tors) [p] [q]), p, q.
+      split; [exact T1|]. split; [reflexivity|]. split; [reflexivity|]. split; [reflexivity|]. split; [reflexivity|].
+      unfold gens_ok. cbn zeta.
+      split; [exact T2|]. split; [exact T3|]. split; [exact T4|]. split; [exact T5|].
+      set (t := length tors) in *. set (r1 := sr_rank o s1) in *. set (r2 := sr_rank o s2) in *.
+      set (n := nr d1) in *.
+      assert (Hrk' : (rank + t = n - r1 - r2 + t)%nat) by lia.
+      split; [|split].
+      + intros i j Hi Hj.
+        rewrite (mmul_ext_r o n _ _ (qF o n B r1 Q2 r2 t)) by (intros l Hl; now apply T8).
+        apply (gen_cycles o L Hint _ _ _ _ _ Hdd _ _ _ _ _ _ S1 _ _ _ _ _ _ S2 t T6); [assumption|lia].
+      + intros i j Hi Hj.
+        rewrite (mmul_ext_l o n _ (pF o n P1 r1 Q2i r2 t)) by (intros l Hl; now apply T7).
+        rewrite (mmul_ext_r o n _ _ (qF o n B r1 Q2 r2 t)) by (intros l Hl; now apply T8).
+        apply (gen_coords o L _ _ _ _ _ _ _ _ _ _ _ S1 _ _ _ _ _ _ S2 t T6); lia.
+      + intros x i Hi. cbn zeta.
+        rewrite (mvec_ext_l n _ (pF o n P1 r1 Q2i r2 t)) by (intros l Hl; now apply T7).
+        rewrite (gen_boundary o L _ _ _ _ _ _ _ _ _ _ _ S1 _ _ _ _ _ _ S2 t T6) by lia.
+        rewrite <- Hrk.
+        split.
+        * intros Hlt. destruct (Nat.ltb_spec i rank); [reflexivity|lia].
+        * intros Hge. destruct (Nat.ltb_spec i rank); [lia|].
+          eexists. f_equal.
+          pose proof (units_first (fun k => mg (sr_d s1) k k) r1 Hch) as HU.
+          cbn zeta in HU. rewrite <- Htors in HU. fold t in HU.
+          destruct HU as [_ [HU _]]. rewrite HU.
+          rewrite nth_indep with (d' := mg (sr_d s1) O O) by (rewrite map_length, seq_length; lia).
+          rewrite (map_nth (fun k => mg (sr_d s1) k k)), seq_nth by lia. reflexivity.
   Qed.
 End C07Calc.
